@@ -2,7 +2,7 @@
 import ast
 import z3
 from .values import *
-from .engine import HObj, HList, HSeqList, HDict, key_of
+from .engine import HObj, HList, HSeqList, HDict, key_of, NeedConcreteMember
 from . import builtins_ as B
 
 
@@ -513,6 +513,8 @@ class ExprMixin:
             return z3.Or(*[self.equal(x, k) for k, _ in h.sym])
         if c.k == 'dict':
             h = self.st.heap[c.t]
+            if any(k[0] == 's' for k in h.d):
+                return z3.BoolVal(self.dict_key(h, x) in h.d)
             try:
                 return z3.BoolVal(key_of(x) in h.d)
             except Unsupported:
@@ -541,7 +543,35 @@ class ExprMixin:
             return SV('obj' if isinstance(h, HObj) else ('list' if isinstance(h, HList) else 'dict'), k[1])
         if k[0] == 't':
             return SV('tuple', tuple(self.unkey(x) for x in k[1]))
+        if k[0] == 's':
+            return self.st.ghost[('symkeys',)][k]
         raise Unsupported('unkey')
+
+    def dict_key(self, h, v):
+        """dictionary key for a value that may be a symbolic str / int: case split over the keys already present (path condition
+        records equal / different); a key different from all of them becomes a token of its own (same term -> same token)"""
+        try:
+            kk = key_of(v)
+        except NeedConcreteMember:
+            raise
+        except Unsupported:
+            if v.k not in ('str', 'int'):
+                raise
+            tok = ('s', v.k, v.t.sexpr())
+            if tok in h.d:
+                return tok
+            for other in list(h.d):
+                ov = self.unkey(other)
+                if (ov.k in ('str', 'const') and v.k == 'str') or (ov.k == 'int' and v.k == 'int'):
+                    if self.branch(self.equal(v, ov)):
+                        return other
+            self.st.ghost.setdefault(('symkeys',), {})[tok] = v
+            return tok
+        if kk not in h.d and kk[0] in ('c', 'i'):
+            for other in list(h.d):
+                if other[0] == 's' and self.branch(self.equal(v, self.unkey(other))):
+                    return other
+        return kk
 
     # ---------------------------------------------------------------- containers
     def ev_Tuple(self, e):
@@ -696,11 +726,13 @@ class ExprMixin:
                     idx = self.concrete_member(idx)
                     k = key_of(idx)
                 else:
-                    # symbolic key: case split over the (concrete) keys of the dictionary
-                    for kk, vv in h.d.items():
-                        if self.branch(self.equal(idx, self.unkey(kk))):
-                            return vv
+                    # symbolic key: case split over the keys of the dictionary
+                    k = self.dict_key(h, idx)
+                    if k in h.d:
+                        return h.d[k]
                     raise PyRaise('KeyError')
+            if k not in h.d and any(kk[0] == 's' for kk in h.d):
+                k = self.dict_key(h, idx)
             if k in h.d:
                 return h.d[k]
             if h.default is not None:
@@ -768,7 +800,10 @@ class ExprMixin:
         return SV('list', self.st.alloc(HList(self.comprehend(e.elt, e.generators))))
 
     def ev_SetComp(self, e):
-        raise Unsupported('set comprehension')
+        # a set is kept as the list of its candidate elements: membership tests are exact; its size and its iteration order are not modelled
+        h = HList(self.comprehend(e.elt, e.generators))
+        h.is_set = True
+        return SV('list', self.st.alloc(h))
 
     def ev_DictComp(self, e):
         pairs = self.comprehend(ast.Tuple(elts=[e.key, e.value], ctx=ast.Load()), e.generators)
@@ -832,6 +867,8 @@ class ExprMixin:
                     out.append(VI(e) if x in (None, 'int') else SV('ref', e, x))
             return out
         if v.k == 'list':
+            if getattr(self.st.heap[v.t], 'is_set', False):
+                raise Unsupported('iteration over a set (order and multiplicity are not modelled)')
             return list(self.st.heap[v.t].items)
         if v.k == 'dict':
             return [self.unkey(k) for k in self.st.heap[v.t].d]
